@@ -974,7 +974,10 @@ class ConstantReferenceApplier(TreeListener):
 
         if tree.child:
             try:
-                self.extra_symbols[-1][str(tree)] = self.classes[-1].find_constant_symbol(tree)
+                # A copy: flattening renames the symbol and strips prefixes, the tree keeps its own
+                self.extra_symbols[-1][str(tree)] = copy.deepcopy(
+                    self.classes[-1].find_constant_symbol(tree)
+                )
             except (
                 KeyError,
                 ast.ClassNotFoundError,
